@@ -26,6 +26,7 @@ def run(ctx):
     sparse.evaluators(ctx)
     sparse.assembler(ctx)
     misc_guards.sparse_grid_guard(ctx)
+    misc_guards.projection_dtype(ctx)
     gridfun.integrate_kernel(ctx)
     gridfun.project_vectorized(ctx)
     gridfun.forwarding(ctx)
